@@ -18,12 +18,14 @@ fn main() {
         let max: u64 = args.get(3).and_then(|s| s.parse().ok()).unwrap_or(50_000_000);
         nd::enum_start();
         let mut runs = 0u64;
+        let mut valid_runs = 0u64;
         loop {
             nd::enum_begin_run();
             let r = std::panic::catch_unwind(|| body());
             runs += 1;
             let failed = nd::FAILED.with(|f| f.borrow().clone());
             let valid = !nd::ASSUME_FAILED.with(|f| f.get());
+            if valid { valid_runs += 1; }
             if valid && (!failed.is_empty() || r.is_err()) {
                 let script = nd::enum_script();
                 println!("ENUM-FAILED after {runs} runs: {}", failed.join(" | "));
@@ -33,7 +35,8 @@ fn main() {
             }
             if !nd::enum_advance() || runs >= max { break; }
         }
-        println!("ENUM-OK {runs} runs, no obligation failed");
+        if valid_runs == 0 { println!("ENUM-VACUOUS {runs} runs, none satisfied the harness's assumptions"); std::process::exit(3); }
+        println!("ENUM-OK {valid_runs} runs, no obligation failed");
         return;
     }
     let vals: Vec<Vec<u8>> = if args.len() > 2 && !args[2].is_empty() { args[2].split(',').map(unhex).collect() } else { vec![] };
